@@ -21,7 +21,9 @@ class, or — rarely — a chunk that makes every later build fail) and a histor
   K  (correspondence): result of every step and dump of every metamodel after every step = the Lean heap model
        `Pyx.Heap.run` (PyxModel/LoadHeap.lean) run with the sharing parameters generated from the source.
 """
+import hashlib
 import itertools
+import os
 
 import loadgen as G
 from sexp import Sym, dumps
@@ -46,6 +48,14 @@ BUDGET_S = {'quick': 60, 'thorough': 600}
 
 _x = None
 _DOC = None
+# per-step dumps are compared as digests of their canonical text (small results); PYXVERIF_FULL_OBS=1 keeps them
+FULL_OBS = bool(os.environ.get('PYXVERIF_FULL_OBS'))
+
+
+def _digest(x):
+    if FULL_OBS or isinstance(x, Sym):
+        return x
+    return hashlib.sha1(dumps(x).encode('utf-8')).hexdigest()[:20]
 
 
 def setup(ctx):
@@ -529,7 +539,7 @@ def run_impl(case):
                      'step %d (%s) wrote an object (%s, reached as %s from %s) that the step\'s target does not own'
                      % (step, dumps(_enc_op(op, case)), type(o).__name__, role, root))
                 break
-        obs.append([res] + [a[0] for a in after])
+        obs.append([res] + [_digest(a[0]) for a in after])
     nontrivial = len([h for h in handles if h.m is not None]) >= 2 and changed_some
     return {'obs': obs, 'd_fail': fails, 'nontrivial': nontrivial,
             'key': dumps([_enc_op(o, case) for o in case['ops']]) + '|' + str(hash(repr(chunks))),
@@ -599,7 +609,7 @@ def model_line(case):
 
 
 def model_obs(case, ans):
-    return ans
+    return [[st[0]] + [_digest(d) for d in st[1:]] for st in ans]
 
 
 def shrink_candidates(case):
